@@ -11,6 +11,34 @@ from runtime import corpus, infer, spec_c
 from runtime.harness import Harness
 
 
+from monkeytype.stubs import ReplaceTypedDictsWithStubs
+from monkeytype.typing import field_annotations
+import typing as _typing
+
+_TRAVERSED = ("List", "Set", "Dict", "DefaultDict", "Tuple", "TupleVar", "Generator", "Union")
+
+
+def tdpos_c(t):
+    """Concrete twin of tdpos (theories/replace_th.py): TypedDict nodes only under containers the replacement traverses."""
+    kd = spec_c.kind(t)
+    if kd == "TD":
+        req, opt = field_annotations(t)
+        return all(tdpos_c(x) for x in list(req.values()) + list(opt.values()))
+    if kd in _TRAVERSED:
+        return all(a is Ellipsis or tdpos_c(a) for a in t.__args__)
+    return not spec_c.td_nodes(t)
+
+
+def wf_ann_c(t):
+    """Concrete twin of wf_ann: the modelled type grammar with forward references as leaves, no TypedDict / TypeVar left."""
+    kd = spec_c.kind(t)
+    if kd in ("TD", "NamedTD", "TypeVar"):
+        return False
+    if kd == "ForwardRef" or t is Ellipsis:
+        return True
+    return all(wf_ann_c(a) for a in getattr(t, "__args__", ()) or () if not isinstance(a, (list, tuple)))
+
+
 class StrProxy:
     """A transparent string proxy (lazy-translation string style): reports str as its class without being one."""
     def __init__(self, s):
@@ -93,6 +121,20 @@ def run(ctx):
                     pass     # rendering problems are C11 / C12's business
                 except Exception as e:
                     problems.append("stub generation raises %r" % e)
+            # T-REPLACE validation on the real ReplaceTypedDictsWithStubs: the hypotheses the replacement clauses carry hold of every inferred type
+            # (TypedDicts only where the traversal goes; none empty), and under them the clauses' reading is what the class does
+            try:
+                if not tdpos_c(t) or not all(len(fa[0]) + len(fa[1]) >= 1 for fa in map(field_annotations, spec_c.td_nodes(t))):
+                    H.theory_failure("tdpos / td_ne", "an inferred type has a TypedDict outside the traversed containers, or an empty one", {"type": repr(t), "k": k})
+                rt, stubs_ = ReplaceTypedDictsWithStubs.rewrite_and_get_stubs(t, "x")
+                if spec_c.td_nodes(rt) or not wf_ann_c(rt):
+                    H.theory_failure("post:replaced / wf_ann", "a TypedDict is left after replacement of a type satisfying tdpos, or the result is outside the annotation grammar", {"type": repr(t), "result": repr(rt)})
+                if spec_c.td_ok(t, k) and not all(1 <= len(s_.attribute_stubs) <= max(k, 0) for s_ in stubs_):
+                    problems.append("generated class stubs %r outside 1..%d fields" % ([len(s_.attribute_stubs) for s_ in stubs_], k))
+                if len(stubs_) < len(spec_c.td_nodes(t)):
+                    problems.append("%d class stubs for %d TypedDict nodes" % (len(stubs_), len(spec_c.td_nodes(t))))
+            except Exception as e:     # noqa
+                problems.append("replacement raises %r" % (e,))
             if problems:
                 H.violation("monkeytype.typing:get_dict_type", "td_ok:%s:%s" % (key, problems[:1]), "TypedDict size limit not honoured: " + "; ".join(problems[:2]), {"values": infer.short(g, 300), "k": k}, problems)
             else:
